@@ -5,15 +5,15 @@ SPEC = {'level': 'exploration',
                  'fc00::/8 strings are IPv6 unless CJDNS is marked reachable (documented -cjdnsreachable behaviour); the harness sets the reachability per case',
                  'BanMan: bans of valid subnets only; discouragement checked one-directionally (probabilistic filter, < 50000 insertions)',
                  'mock time; ban file on tmpfs'],
- 'stages': [gen('vh_c60', 'c60_subnet', 100000, 2000000, min_cases_quick=30000,
+ 'stages': [gen('vh_c60', 'c60_subnet', 100000, 2000000, min_cases_quick=15000,
                 floors={'ipv4': 0.3, 'ipv6': 0.25, 'form-maskaddr': 0.1, 'form-string-len': 0.1, 'form-string-mask': 0.1, 'form-single-host': 0.08,
                         'rejected-noncontiguous-mask': 0.03, 'rejected-length': 0.005, 'mapped-as-ipv4': 0.02, 'nonip-tor': 0.01, 'nonip-i2p': 0.01, 'nonip-cjdns': 0.01},
                 rule='subnets in five construction forms vs own CIDR reference with boundary probes; non-trivial = probes on both sides of the prefix boundary or a rejected form or non-IP'),
             enum('vh_c60', 'c60_prefix_table', rule='exhaustive prefix length x flipped bit x base address (53190 cases)'),
-            gen('vh_c60', 'c60_netaddr_rt', 100000, 2000000, min_cases_quick=30000,
+            gen('vh_c60', 'c60_netaddr_rt', 100000, 2000000, min_cases_quick=15000,
                 floors={'ipv4': 0.2, 'ipv6': 0.2, 'torv3': 0.08, 'i2p': 0.08, 'cjdns': 0.08},
                 rule='v1/v2 serialization and string round trips of every network; all non-trivial'),
-            gen('vh_c60', 'c60_banman', 2000, 40000, min_cases_quick=400,
+            gen('vh_c60', 'c60_banman', 2000, 40000, min_cases_quick=300,
                 floors={'ban-subnet': 0.5, 'ban-address': 0.4, 'expiry-crossed': 0.3, 'unban-listed': 0.2, 'op-getbanned': 0.2, 'op-restart': 0.1, 'subnet-ban-covers-address': 0.4},
                 rule='ban histories vs reference list; non-trivial = subnet ban covering a probe address + expiry crossed + unban'),
             gen('vh_c60', 'up_netaddress', 3000, 60000, rule='upstream CNetAddr target (supplementary)'),
